@@ -1039,7 +1039,9 @@ func faulty(s *Scenario, log *core.Log) core.Result {
 	}
 	if err != nil {
 		var list igc.Errors
-		if !errors.As(err, &list) || len(list) == 0 {
+		if r.Errs == 0 && r.Stalls == 0 && (!errors.As(err, &list) || len(list) == 0) {
+			// (with a failing or stalling reader an I/O error of another type
+			// would be a legitimate thing to return: nothing is demanded then)
 			res.Fail("errors-not-a-list", "errors-not-a-list", "Read returned the error %T, not the list of record errors (igc.Errors)", err)
 			return res
 		}
